@@ -181,7 +181,6 @@ pub struct TmplGroup {
     // ordered maps: the emitted code must not depend on hash seeds or on insertion order
     trees: BTreeMap<String, Template>,
     scripts: BTreeMap<String, String>,
-    has_scripts: bool,
     extra_runtime_string: String,
     dev_mode: bool,
 }
@@ -192,7 +191,6 @@ impl TmplGroup {
         Self {
             trees: BTreeMap::new(),
             scripts: BTreeMap::new(),
-            has_scripts: false,
             extra_runtime_string: String::new(),
             dev_mode: false,
         }
@@ -210,11 +208,19 @@ impl TmplGroup {
         self.dev_mode
     }
 
+    /// Whether the script runtime is needed: a function of the files the group holds now, not of its history.
+    fn has_scripts(&self) -> bool {
+        !self.scripts.is_empty()
+            || self
+                .trees
+                .values()
+                .any(|x| x.inline_script_module_names().next().is_some())
+    }
+
     /// import another group.
     pub fn import_group(&mut self, group: &TmplGroup) {
         self.trees.extend(group.trees.clone());
         self.scripts.extend(group.scripts.clone());
-        self.has_scripts = self.has_scripts || group.has_scripts;
         self.extra_runtime_string
             .push_str(&group.extra_runtime_string);
     }
@@ -242,9 +248,6 @@ impl TmplGroup {
     /// Add a template into the group.
     pub fn add_tmpl(&mut self, path: &str, tmpl_str: &str) -> Vec<ParseError> {
         let (template, mut parse_state) = crate::parse::parse(path, tmpl_str);
-        if template.inline_script_module_names().next().is_some() {
-            self.has_scripts = true;
-        }
         let ret = parse_state.take_warnings();
         self.trees.insert(template.path.clone(), template);
         ret
@@ -285,7 +288,6 @@ impl TmplGroup {
     /// `require` and `exports` can be visited in this JavaScript segment, similar to Node.js.
     pub fn add_script(&mut self, path: &str, content: &str) {
         self.scripts.insert(path.to_string(), content.to_string());
-        self.has_scripts = true;
     }
 
     /// Remove a script segment from the group.
@@ -309,7 +311,7 @@ impl TmplGroup {
     pub fn get_runtime_string(&self) -> String {
         let mut w = JsTopScopeWriter::new(String::new());
         w.function_scope(|w| {
-            runtime_fns(w, self.has_scripts)?;
+            runtime_fns(w, self.has_scripts())?;
             Ok(())
         })
         .unwrap();
@@ -402,7 +404,7 @@ impl TmplGroup {
         &self,
         w: &mut JsFunctionScopeWriter<String>,
     ) -> Result<(), TmplError> {
-        runtime_fns(w, self.has_scripts)?;
+        runtime_fns(w, self.has_scripts())?;
         if self.extra_runtime_string.len() > 0 {
             w.custom_stmt_str(&self.extra_runtime_string)?;
         }
@@ -497,7 +499,7 @@ impl TmplGroup {
     pub fn export_globals(&self) -> Result<String, TmplError> {
         let mut w = JsTopScopeWriter::new(String::new());
         w.function_scope(|w| {
-            runtime_fns(w, self.has_scripts)?;
+            runtime_fns(w, self.has_scripts())?;
             if self.extra_runtime_string.len() > 0 {
                 w.custom_stmt_str(&self.extra_runtime_string)?;
             }
